@@ -299,7 +299,7 @@ def run(ctx):
     meta = status["gen"].get("effects", {})
     rng = ctx.rng
     # correspondence
-    n_docs = 3000 if ctx.quick else 40000
+    n_docs = 3000 if ctx.quick else 120000
     docs = [gen_doc(rng, 0.0 if i % 3 == 0 else 0.35) for i in range(n_docs)]
     docs += [w + s + v for w in WORDS[:12] for s in (" or ", " of ", ". ") for v in EVIL]
     docs = list(dict.fromkeys(docs))
